@@ -153,6 +153,7 @@ func genC06(g engine.G) *engine.Case {
 	default:
 		sc = engine.GenNasty(g)
 	}
+	sc.RawConverters = g.Pct(15)
 	c := &engine.Case{Sc: sc, Reps: 2}
 	switch k := g.Int(0, 9); {
 	case k < 6:
